@@ -16,8 +16,12 @@ MC = ("224.224.224.245", 30490)
 
 
 def addr_of(n):
+    """Opaque address numbers of the model -> socket addresses: 1..99 hosts 10.0.0.n port 30490; 100..199 the SAME host as
+    n-100 on another port (two peers on one machine); 200.. IPv6 hosts."""
     if n >= 200:
         return (f"2001:db8::{n:x}", 30490, 0, 0)
+    if n >= 100:
+        return (f"10.0.0.{n - 100}", 30491)
     return (f"10.0.0.{n}", 30490)
 
 
@@ -25,7 +29,7 @@ def addr_id(t):
     ip = ipaddress.ip_address(t[0])
     if ip.version == 6:
         return int(ip) & 0xFFFF
-    return int(ip) & 0xFF
+    return (int(ip) & 0xFF) + (100 if t[1] == 30491 else 0)
 
 
 class FakeRandom:
